@@ -201,6 +201,11 @@ func execute(vm *otto.Otto, spec rtSpec, script *otto.Script, program *ast.Progr
 		out = append(out, "default-random:"+runOn(vm, `(function(){ var ok = 0; for (var i = 0; i < 300; i++) { var r = Math.random(); if (r >= 0 && r < 1) ok++ } return ok })()`))
 		vm.SetRandomSource(lcg(spec.Seed))
 	}
+	// every runtime sweeps the whole standard library once (twice for the second half of the seeds), whatever
+	// else it was drawn to do: package-level state behind any built-in is then used by all runtimes of every case
+	for k := 0; k <= spec.Seed%2; k++ {
+		out = append(out, "library:"+runOn(vm, librarySweep))
+	}
 	for i, p := range spec.Programs {
 		if (i+spec.Seed)%2 == 1 {
 			// pre-parsed route: an *ast.Program that is new to this runtime (and to anything it shares with its template)
@@ -498,7 +503,7 @@ func countKind(c raceCase, k string) int {
 
 var raceFacet = harness.Register(&harness.Facet[raceCase]{
 	Name: "concurrent-runtimes",
-	Rule: "rapid: a template history (all heap builders plus 1-3 drawn ones), one shared source compiled once to a Script and parsed once to a Program, and 2-8 runtimes of mixed provenance (fresh, copies of the template, copies of such copies that run at the same time, the template itself; a third of them first draw from Math.random without a source of their own), each with 1-4 private programs followed by a call of every function left in the global scope (heap builders/mutators, programs touching every subsystem with package-level data: regexp, JSON, Date, sort, number formatting, Math with a per-runtime random source, URI functions, error creation and stack text, accessor descriptors, Function/eval, strings; 30% from the semantic generator), half of them with an interrupt channel, a Script reuse count 1-50, GOMAXPROCS 2/4/16, optionally Copy() of the template from several goroutines while it runs. Executed in a -race worker subprocess. Oracle: (1) no race report / fatal error (worker death is attributed to the case), (2) each runtime's results and host-free trace equal those of the same programs run alone sequentially, (3) the structural hash of the compiled Script (read-only reflection over all fields) is unchanged by execution. Non-trivial = at least two runtimes share the Script/Program or the template; distinct by case",
+	Rule: "rapid: a template history (all heap builders plus 1-3 drawn ones), one shared source compiled once to a Script and parsed once to a Program, and 2-8 runtimes of mixed provenance (fresh, copies of the template, copies of such copies that run at the same time, the template itself; a third of them first draw from Math.random without a source of their own), each sweeping the whole standard library once or twice and then running 1-4 private programs followed by a call of every function left in the global scope (heap builders/mutators, programs touching every subsystem with package-level data: regexp, JSON, Date, sort, number formatting, Math with a per-runtime random source, URI functions, error creation and stack text, accessor descriptors, Function/eval, strings; 30% from the semantic generator), half of them with an interrupt channel, a Script reuse count 1-50, GOMAXPROCS 2/4/16, optionally Copy() of the template from several goroutines while it runs. Executed in a -race worker subprocess. Oracle: (1) no race report / fatal error (worker death is attributed to the case), (2) each runtime's results and host-free trace equal those of the same programs run alone sequentially, (3) the structural hash of the compiled Script (read-only reflection over all fields) is unchanged by execution. Non-trivial = at least two runtimes share the Script/Program or the template; distinct by case",
 	Quick:    32,
 	Thorough: 40,
 	Gen: func(t *rapid.T) raceCase {
